@@ -50,6 +50,7 @@ type PfcpServer struct {
 	rcvCh        chan ReceivePacket
 	srCh         chan report.SessReport
 	trToCh       chan TransactionTimeout
+	done         chan struct{} // closed when the event loop has ended
 	conn         *net.UDPConn
 	recoveryTime time.Time
 	driver       forwarder.Driver
@@ -70,6 +71,7 @@ func NewPfcpServer(cfg *factory.Config, driver forwarder.Driver) *PfcpServer {
 		rcvCh:        make(chan ReceivePacket, RECEIVE_CHANNEL_LEN),
 		srCh:         make(chan report.SessReport, REPORT_CHANNEL_LEN),
 		trToCh:       make(chan TransactionTimeout, TRANS_TIMEOUT_CHANNEL_LEN),
+		done:         make(chan struct{}),
 		recoveryTime: time.Now(),
 		driver:       driver,
 		rnodes:       make(map[string]*RemoteNode),
@@ -89,8 +91,11 @@ func (s *PfcpServer) main(wg *sync.WaitGroup) {
 		s.log.Infoln("pfcp server stopped")
 		s.stopTrTimers()
 		close(s.rcvCh)
-		close(s.srCh)
-		close(s.trToCh)
+		// report producers and timer callbacks may still be running: tell
+		// them the loop is gone instead of closing the channels they send on
+		if s.done != nil {
+			close(s.done)
+		}
 		wg.Done()
 	}()
 
@@ -259,11 +264,18 @@ func (s *PfcpServer) UpdateNodeID(n *RemoteNode, newId string) {
 }
 
 func (s *PfcpServer) NotifySessReport(sr report.SessReport) {
-	s.srCh <- sr
+	select {
+	case s.srCh <- sr:
+	case <-s.done:
+		// the server has stopped: nobody is left to serve the report
+	}
 }
 
 func (s *PfcpServer) NotifyTransTimeout(trType TransType, trID string) {
-	s.trToCh <- TransactionTimeout{TrType: trType, TrID: trID}
+	select {
+	case s.trToCh <- TransactionTimeout{TrType: trType, TrID: trID}:
+	case <-s.done:
+	}
 }
 
 func (s *PfcpServer) PopBufPkt(seid uint64, pdrid uint16) ([]byte, bool) {
